@@ -263,7 +263,20 @@ func ttxGenStream(r *fw.Rand) ttxStream {
 	distractorUnits := func(sameMag bool, subtitleFlag bool) [][]byte {
 		m, p := distractor(sameMag)
 		var us [][]byte
-		us = append(us, ttxUnit(0x03, 0xe4, m, 0, ttxHeader(p, ttxHeaderFlags{subtitle: subtitleFlag, serial: serial, charset: r.Intn(8)})))
+		hdr := ttxHeader(p, ttxHeaderFlags{subtitle: subtitleFlag, serial: serial, charset: r.Intn(8)})
+		if r.P(1, 4) {
+			// a data page whose number has a hexadecimal digit (8A5, 1F0 ...); FF is the time-filling header and excluded,
+			// and so is a number the library's decimal reading tens*10+units would take for the selected page
+			for {
+				tens, units := r.Intn(16), r.Intn(16)
+				if (tens >= 10 || units >= 10) && !(tens == 15 && units == 15) && tens*10+units != page {
+					hdr = ttxHeaderNibbles(tens, units, ttxHeaderFlags{subtitle: false, serial: serial, charset: r.Intn(8)})
+					cnt["hex_page_distractors"]++
+					break
+				}
+			}
+		}
+		us = append(us, ttxUnit(0x03, 0xe4, m, 0, hdr))
 		for j := 0; j < r.Intn(3); j++ {
 			cells, _ := ttxGenRow(r, 0, map[string]int64{})
 			us = append(us, ttxUnit(0x03, 0xe4, m, r.Range(1, 24), cells))
